@@ -220,6 +220,16 @@ func (p *snapshotPool) RejectPeer(peerID p2p.ID) {
 	p.peerBlacklist[peerID] = true
 }
 
+// HasPeer returns true if the peer has advertised the snapshot and has neither been removed nor
+// rejected since.
+func (p *snapshotPool) HasPeer(snapshot *snapshot, peerID p2p.ID) bool {
+	key := snapshot.Key()
+	p.Lock()
+	defer p.Unlock()
+	_, ok := p.snapshotPeers[key][peerID]
+	return ok
+}
+
 // IsPeerRejected returns true if the peer has been rejected via RejectPeer.
 func (p *snapshotPool) IsPeerRejected(peerID p2p.ID) bool {
 	p.Lock()
